@@ -19,7 +19,7 @@ IMPL_TIMEOUT = 60
 
 RULE = ("histories of public mutations on MixedEdgeGraph() and ADMG(), universe of 4 nodes (3 in the exhaustive stream), layer "
         "names {directed,bidirected,undirected,extra} of both kinds; exhaustive over a reduced alphabet (" + ALPHABET_DOC + "), "
-        "then seeded random walks biased to query-then-add-layer, remove-then-re-add, copy-then-mutate; after every op all "
+        "then seeded random walks (incl. clear() and self loops) biased to query-then-add-layer, remove-then-re-add, copy-then-mutate; after every op all "
         "read queries of the touched object and the raw state of every live object are compared with the extracted model; "
         "distinct by op list; non-trivial = the final store holds an edge and at least one op was rejected or a second "
         "object was allocated")
@@ -34,20 +34,22 @@ ASSUMPTIONS = ["attribute keys a0,a1 with values 0..3; node labels ints (label f
                "exception-vs-no-exception is compared only for edge operations on an absent edge type (documented error) "
                "and for well-formed calls (must not raise)"]
 LEVEL_TEXT = ("Coq theorems, all UNBOUNDED over histories (induction on the op list, any length, any interleaving, both initial "
-              "classes, several live objects): mixed_layers_sync (every layer has exactly the node set, stored edges join "
-              "nodes, dict keys unique), mixed_refines (abs(run h) = run_abs h object by object w.r.t. the set-of-edges-per-"
-              "layer semantics, same accept/reject/documented-error outcome for every op), mixed_queries (has_edge, "
-              "number_of_edges(u,v[,l]), get_edge_data presence, neighbors, to_undirected, to_directed answer from the abstract "
-              "edge sets; size == number_of_edges per layer and in total), edges_stored_once (each abstract edge is stored once "
-              "per layer), copy_equal_independent (copy is Leibniz-equal incl. all attributes, frame property between objects), "
-              "subgraph_exact. NOT proved, observed by the tie only: number_of_edges(edge_type=l) and degree as cardinalities of "
-              "the abstract set (the last counting step), the dict.update semantics of attribute writes, edges()/adj views. "
-              "The theorems are about the Gallina model; they reach MixedEdgeGraph/ADMG through the correspondence: after "
-              "EVERY op of every generated history every read query of the property is compared with the extracted model.")
+              "classes, several live objects; ops incl. clear() and self loops): mixed_layers_sync (every layer has exactly the "
+              "node set, stored edges join nodes, dict keys unique), mixed_refines (abs(run h) = run_abs h object by object "
+              "w.r.t. the set-of-edges-per-layer semantics, same accept/reject/documented-error outcome for every op), "
+              "mixed_refines_attrs (the same including node, edge and graph attribute dicts with dict.update semantics; copy "
+              "duplicates structure and attributes at the abstract level), mixed_queries + mixed_queries_counts (EVERY read "
+              "query of the property answers from the abstract edge sets: has_edge, number_of_edges(u,v[,l]), "
+              "number_of_edges(edge_type=l) and number_of_edges() as cardinalities, degree as incidence count, size == "
+              "number_of_edges, get_edge_data presence, neighbors, to_undirected, to_directed, edges()/adj as tables), "
+              "edges_stored_once, copy_equal_independent (Leibniz-equal incl. all attributes, frame property between objects), "
+              "subgraph_exact. The theorems are about the Gallina model; they reach MixedEdgeGraph/ADMG through the "
+              "correspondence: after EVERY op of every generated history every read query of the property is compared with the "
+              "extracted model.")
 LEVEL_NOTE = ("Trusted: Coq kernel (vm_compute only in Examples / spot checks), extraction (ExtrOcamlBasic) + driver.ml, "
               "harness/c02.py (packing of the real object's answers, normalisation of subgraph attributes), networkx Graph/DiGraph "
-              "per layer. On the unchanged /repo the check reports three defects (size, stale cached adj, default edge types "
-              "resurrected by copy/subgraph of a subclass); fixes/C02-*.patch repair them and the check then exits 0.")
+              "per layer. Three defects found by this check (size, stale cached adj, default edge types resurrected by "
+              "copy/subgraph of a subclass) are fixed in /repo (fixes/C02-*.patch); their minimal histories stay in corpus/C02.")
 TECHNIQUE = ("Coq proof (generic state-machine algebra: invariant + homomorphism/refinement to set-level semantics, unbounded "
              "over histories) + extracted-model correspondence after every op of exhaustive short and random long histories")
 
@@ -301,6 +303,8 @@ def _apply(objs, op, lab, N):
         elif code == 12:
             objs.append(None)
             objs[-1] = G.copy()
+        elif code == 14:
+            G.clear()
         else:
             objs.append(None)
             ns = [lab(n) for n in a[0] if lab(n) in G]
@@ -390,7 +394,7 @@ def first_diff(case, impl, model):
 
 
 OPNAMES = ["add_node", "add_nodes_from", "add_edge", "add_edges_from", "remove_node", "remove_nodes_from", "remove_edge",
-           "remove_edges_from", "clear_edges", "add_edge_type", "remove_edge_type", "graph.update", "copy", "subgraph"]
+           "remove_edges_from", "clear_edges", "add_edge_type", "remove_edge_type", "graph.update", "copy", "subgraph", "clear"]
 
 
 def compare(case, impl, model):
